@@ -65,6 +65,11 @@ def trailing_ws_problems(nodes, tick):
         if k == len(ch):
             continue
         allws = ":all-whitespace-scope" if k == 0 else ""
+        if not allws:
+            last_line = max(c.position.line for c in ch)
+            later = [m for m in nodes if type(m).__name__ not in WS + ("ProgramNode",) and m.position.line > last_line]
+            if later:
+                allws = ":followed-by-a-line-of-an-outer-scope"
         for c in ch[k:]:
             if c.completed:
                 probs.append((f"trailing-whitespace-passed:{type(n).__name__}{allws}",
